@@ -50,7 +50,9 @@ Selectors == {"same", "none", "shift", "firstonly", "extra"}
 \* the whole trajectory); "split_assoc": that associated file is produced later
 \* by create_associated from an existing base file - two files, each with its
 \* OWN species list
-Layouts == {"single", "assoc_at_create", "create_associated", "save_from_memory", "evicted", "split", "split_assoc"}
+\* "save_retry": an in-memory store whose first save - asking for an associated file at a path that cannot be
+\* created - is refused, then saved into one file: a refused save leaves nothing behind that a later save sees
+Layouts == {"single", "assoc_at_create", "create_associated", "save_from_memory", "save_retry", "evicted", "split", "split_assoc"}
 Trajs == {1, 2}
 AllUnset == SUBSET Opt
 NoUnset == {{}}
